@@ -172,7 +172,7 @@ func (e *Env) Copy() *Env {
 	if e.values != nil {
 		copy.values = make(map[string]reflect.Value, len(e.values))
 		for name, value := range e.values {
-			if k := value.Kind(); (k == reflect.Struct || k == reflect.Array) && value.CanAddr() {
+			if k := value.Kind(); (k == reflect.Struct || k == reflect.Array) && value.CanAddr() && value.CanInterface() {
 				// a struct or array value lives in a cell of its own: the copy gets its own
 				// cell, so that a field or element store on one side is invisible on the other
 				cell := reflect.New(value.Type()).Elem()
